@@ -459,12 +459,15 @@ impl Ctx {
             }
             return 2;
         }
-        if self.obs.evaluations < self.floor_evaluations || self.obs.shapes.len() < 2 {
+        // a lane that divides the workload (VERIF_CASES_DIV) divides the observation floor with it
+        let div = std::env::var("VERIF_CASES_DIV").ok().and_then(|v| v.parse::<u64>().ok()).filter(|d| *d > 1).unwrap_or(1);
+        let floor = self.floor_evaluations / div;
+        if self.obs.evaluations < floor || self.obs.shapes.len() < 2 {
             println!(
                 "INCONCLUSIVE: property={} observed too little (evaluations={} floor={} distinct={})",
                 self.prop,
                 self.obs.evaluations,
-                self.floor_evaluations,
+                floor,
                 self.obs.shapes.len()
             );
             return 2;
